@@ -67,7 +67,7 @@ def gen_sources(ctx, n, opts_fn):
     return out
 
 
-def run_functions(ctx, sources, modes, on_result=None, check_op='check.func', classify=None):
+def run_functions(ctx, sources, modes, on_result=None, check_op='check.func', classify=None, strict_every=0):
     """For every source x (fin, strict): real analysis, model, Lean predicate.
     classify(violation_dict, src, fin, strict, obs) -> signature dict"""
     drv = ctx.drv
@@ -99,7 +99,7 @@ def run_functions(ctx, sources, modes, on_result=None, check_op='check.func', cl
                 compare_model(ctx, src, fin, strict, obs, r['ok'], kind)
         pending.clear()
 
-    for src in sources:
+    for k_src, src in enumerate(sources):
         try:
             ast = astwire.parse(src)
         except Exception as e:
@@ -107,6 +107,8 @@ def run_functions(ctx, sources, modes, on_result=None, check_op='check.func', cl
             continue
         for fnode in astwire.funcs(ast):
             for fin, strict in modes:
+                if strict and strict_every and k_src % strict_every != 0:
+                    continue
                 node, info = implobs.prepare(fnode, strict)
                 if node is None:
                     ctx.count('refused_strict' if info.get('refused') else 'syntax_check_raised')
